@@ -19,12 +19,20 @@ func (r *Run) RacePass(args ...string) {
 		r.Assume("race pass skipped: VERIF_RACE_BIN not set (check was not started through /verif/check)")
 		return
 	}
+	if r.Violations() > 0 {
+		r.Assume("race pass skipped: the exhaustive part already found a violation")
+		return
+	}
 	cmd := exec.Command(bin, args...)
 	cmd.Env = append(os.Environ(), "GORACE=halt_on_error=0 exitcode=0", "VERIF_RACE_CHILD=1")
 	var stderr, stdout bytes.Buffer
 	cmd.Stderr = &stderr
 	cmd.Stdout = &stdout
 	if err := cmd.Run(); err != nil {
+		if strings.Contains(stderr.String(), "panic:") && strings.Contains(stderr.String(), "github.com/specterops/dawgs/") {
+			r.Report(Violation{Class: "panic", Summary: "panic in DAWGS code during the free-running pass", Artefact: map[string]any{"stderr_tail": strings.Split(tail(stderr.String(), 40), "\n"), "args": args}})
+			return
+		}
 		Fatalf("race pass: %v\n%s", err, tail(stderr.String(), 40))
 	}
 	reports := strings.Split(stderr.String(), "==================\n")
